@@ -2,18 +2,19 @@
 From Coq Require Extraction ExtrOcamlBasic ExtrOcamlString.
 From Coq Require Import List Arith Ascii.
 Require Import TT.Model.Str TT.Model.C07TypeParse TT.Model.C07Harvest TT.Model.C07Reach.
-Require Import TT.Spec.TsLex TT.Spec.TsModule TT.Spec.TsObs TT.Spec.C07Spec TT.Spec.C09Spec.
+Require Import TT.Spec.TsLex TT.Spec.TsModule TT.Spec.TsObs TT.Spec.C07Spec TT.Spec.C09Spec TT.Model.C09Module TT.Spec.C09ModuleSpec.
 Import ListNotations.
 
 Definition sx_names (l : list str) : sx := SL (map SA l).
-(* per run: (structs-in-order decl_before_use corr parsed sorted-order-reproduced) *)
+(* per run: (structs-in-order decl_before_use corr parsed sorted-order-reproduced whole-module-constants-reproduced) *)
 Definition c09_run (p : project) (text : str) : sx :=
   let ob := observe_zod_order text in
-  SL [sx_names (c_structs ob); sx_bool (c_ok ob); sx_bool (c09_corr p ob); sx_bool (c_parsed ob); sx_bool (c09_sorted_order p ob)].
+  SL [sx_names (c_structs ob); sx_bool (c_ok ob); sx_bool (c09_corr p ob); sx_bool (c_parsed ob); sx_bool (c09_sorted_order p ob);
+      sx_bool (c09_module_corr p text)].
 (* (in_domain spec_acyclic kf_result_alias edges_recorded agree model-order? (run ...)) *)
 Definition c09_eval (p : project) (texts : list str) : sx :=
   SL [sx_bool (in_domain p); sx_bool (spec_acyclic p); sx_bool false;
-      sx_bool (edges_recorded_b p); sx_bool (agree_b p);
+      sx_bool (edges_recorded_b p && no_params_suffix p); sx_bool (agree_b p);
       sx_opt sx_names (emitted_zod o_default p);
       SL (map (c09_run p) texts)].
 
